@@ -157,10 +157,10 @@ func (m *Multi) RevComp() {
 
 // Reverse reverses the order of letters in the the sequence without complementing them.
 func (m *Multi) Reverse() {
-	end := m.End()
+	start, end := m.Start(), m.End()
 	for _, r := range m.Seq {
 		r.Reverse()
-		r.SetOffset(end - m.End())
+		r.SetOffset(start + end - r.End())
 	}
 }
 
